@@ -182,6 +182,10 @@ fn body(ch: &Ch) -> Run {
       package_specifiers: seeds.iter().map(|(a, b)| (a, b.as_str())),
     });
   }
+  // non-default option: the two builds share one JsrMetadataStore (registry
+  // metadata loaded by the first build is not loaded again by the second)
+  let shared_store = split > 0 && ch.choose("the_two_builds_share_a_jsr_metadata_store", 2) == 1;
+  let store = std::rc::Rc::new(deno_graph::JsrMetadataStore::default());
   let mut r = build_graph(
     &mut g,
     vec![url("https://x/root.ts")],
@@ -189,6 +193,7 @@ fn body(ch: &Ch) -> Run {
     BuildCfg {
       npm: Some(&npm),
       passthrough_jsr: passthrough,
+      jsr_metadata_store: shared_store.then(|| store.clone()),
       ..Default::default()
     },
     ch,
@@ -201,10 +206,21 @@ fn body(ch: &Ch) -> Run {
       BuildCfg {
         npm: Some(&npm),
         passthrough_jsr: passthrough,
+        jsr_metadata_store: shared_store.then(|| store.clone()),
         ..Default::default()
       },
       ch,
     );
+  }
+  if shared_store {
+    // shared metadata is loaded once
+    let log = loader.log.borrow();
+    let mut seen = BTreeSet::new();
+    for c in log.iter().filter(|c| c.specifier.as_str().ends_with("meta.json") && c.cache_setting != deno_graph::source::CacheSetting::Only) {
+      if !seen.insert(c.specifier.to_string()) {
+        run.violate("shared-metadata-store-loads-metadata-twice", format!("{} was loaded again although both builds share one JsrMetadataStore", c.specifier), json!({"root": root_src, "root2": root2_src}));
+      }
+    }
   }
   run.evals = 1;
   let describe = json!({
@@ -212,6 +228,7 @@ fn body(ch: &Ch) -> Run {
     "root2_built_afterwards_on_the_same_graph": if split > 0 { Some(&root2_src) } else { None },
     "lockfile_holds_the_programs_selections": seed_lockfile,
     "passthrough_jsr_specifiers": passthrough,
+    "the_two_builds_share_a_jsr_metadata_store": shared_store,
     "packages": fx.versions.iter().map(|((p, v), (shape, files))| json!({"nv": format!("{p}@{v}"), "exports": exports_of(shape), "files": files})).collect::<Vec<_>>(),
   });
   let case = |extra: Value| json!({"registry": describe, "detail": extra});
